@@ -905,30 +905,56 @@ func (w *World) errorEdgesT(fn *ssa.Function, subst func(string) string, depth i
 			defer func() { enteredBy[fn] = via }()
 		}
 	}
-	for _, b := range fn.Blocks {
-		if len(b.Instrs) == 0 {
+	// every way out with a non-nil error (early return, or an assignment to a named result that reaches the single
+	// return): the condition that decides it is the last branch taken on the way there
+	rets := returnsD(fn, 99)
+	for _, r := range rets {
+		if len(r.Results) == 0 {
 			continue
 		}
-		ifi, ok := b.Instrs[len(b.Instrs)-1].(*ssa.If)
-		if !ok {
+		errv := r.Results[len(r.Results)-1]
+		if !isErrorType(errv.Type()) {
 			continue
 		}
-		for k, pol := range []bool{true, false} {
-			succ := b.Succs[k]
-			r, ok := succ.Instrs[len(succ.Instrs)-1].(*ssa.Return)
-			if !ok || len(r.Results) == 0 {
-				continue
+		cls := w.errClass(errv)
+		if cls == "nil" {
+			continue
+		}
+		// deciding branches: the conditional edges that lead straight to this way out (several for `a || b`),
+		// walking up through blocks with a single predecessor
+		type decide struct {
+			ifi *ssa.If
+			pol bool
+		}
+		var ds []decide
+		var collect func(blk *ssa.BasicBlock, hops int)
+		collect = func(blk *ssa.BasicBlock, hops int) {
+			if blk == nil || hops > 4 {
+				return
 			}
-			errv := r.Results[len(r.Results)-1]
-			if !isErrorType(errv.Type()) {
-				continue
+			for _, p := range blk.Preds {
+				if x, ok := p.Instrs[len(p.Instrs)-1].(*ssa.If); ok && len(p.Succs) == 2 && p.Succs[0] != p.Succs[1] {
+					ds = append(ds, decide{x, p.Succs[0] == blk})
+				} else if len(blk.Preds) == 1 {
+					collect(p, hops+1)
+				}
 			}
+		}
+		if v, isV := virtReturns[r]; isV {
+			last := v.pred.Instrs[len(v.pred.Instrs)-1]
+			if x, ok := last.(*ssa.If); ok && len(v.pred.Succs) == 2 && v.pred.Succs[0] != v.pred.Succs[1] {
+				ds = append(ds, decide{x, v.pred.Succs[0] == v.succ})
+			} else {
+				collect(v.pred, 0)
+			}
+		} else {
+			collect(r.Block(), 0)
+		}
+		for _, dd := range ds {
+			ifi, pol := dd.ifi, dd.pol
 			var fs []Fact
 			condFacts(ifi.Cond, pol, ifi, &fs)
-			cls := w.errClass(errv)
-			if cls == "nil" {
-				continue
-			}
+			b := ifi.Block()
 			// pass-through of a helper's error
 			if depth < 2 {
 				var hc *ssa.Call
@@ -970,7 +996,7 @@ func (w *World) errorEdgesT(fn *ssa.Function, subst func(string) string, depth i
 				t = b
 			}
 			for _, f := range fs {
-				out = append(out, errEdge{subst(f.Expr), cls, r.Pos(), t})
+				out = append(out, errEdge{subst(f.Expr), cls, retPos(r), t})
 			}
 		}
 	}
@@ -1171,6 +1197,10 @@ func sliceBase(v ssa.Value) ssa.Value {
 			}
 			if up := enteringArg(v); up != nil {
 				v = up
+				continue
+			}
+			if src := loadSource(v); src != nil {
+				v = src
 				continue
 			}
 			return v
